@@ -35,7 +35,13 @@ type Trigger func(c *core.Case, expr parser.Expr) bool
 
 var triggers = map[string]Trigger{}
 
+// lazy triggers are expensive (they evaluate the input with the reference engine);
+// they are only consulted after a check found a difference (MatchAfterFailure).
+var lazy = map[string]bool{}
+
 func Register(name string, t Trigger) { triggers[name] = t }
+
+func RegisterLazy(name string, t Trigger) { triggers[name] = t; lazy[name] = true }
 
 var (
 	once sync.Once
@@ -70,7 +76,12 @@ func Load() []Finding {
 
 // Match returns the id of the first open finding that applies to the case's
 // property and whose trigger matches, or "".
-func Match(c *core.Case) string {
+func Match(c *core.Case) string { return match(c, false) }
+
+// MatchAfterFailure also consults the lazy triggers.
+func MatchAfterFailure(c *core.Case) string { return match(c, true) }
+
+func match(c *core.Case, withLazy bool) string {
 	fs := Load()
 	if len(fs) == 0 {
 		return ""
@@ -93,7 +104,7 @@ func Match(c *core.Case) string {
 			continue
 		}
 		t, ok := triggers[f.Trigger]
-		if !ok {
+		if !ok || (lazy[f.Trigger] && !withLazy) {
 			continue
 		}
 		if t(c, expr) {
